@@ -347,7 +347,12 @@ pub fn run(ctx: &Ctx) -> (Report, Meta) {
             return;
         }
         // ---- values
-        let scale_at = |y: &[f64], j: usize| sa.atol.at(j) + sa.rtol.at(j) * y[j].abs();
+        // one tolerance scale per component for the whole run: the error present at a requested time was committed
+        // where |y_j| was large; the requested time itself may sit at a zero crossing of that component
+        let ymax: Vec<f64> = (0..nst)
+            .map(|j| reported.iter().filter_map(|&t| prob.exact(t)).fold(sa.y0[j].abs(), |mx, ex| if ex[j].is_finite() { mx.max(ex[j].abs()) } else { mx }))
+            .collect();
+        let scale_at = |_y: &[f64], j: usize| sa.atol.at(j) + sa.rtol.at(j) * ymax[j];
         for (k, &t) in reported.iter().enumerate() {
             let v = &reported_y[k];
             if v.len() != nst {
